@@ -49,7 +49,7 @@ class HeapMixin(object):
     if t == 'enum':
       e = self.class_by_name(kind.arg)
       if assume_shape:
-        st.assume(z3.And(term >= (0 if not kind.nullable else -1), term < len(e.members)))
+        st.axiom(z3.And(term >= (0 if not kind.nullable else -1), term < len(e.members)))
       if kind.nullable:
         raise Unsupported('nullable enum field: declare as val')
       return VEnum(e, term)
@@ -62,7 +62,7 @@ class HeapMixin(object):
       return VCallable(term, label=kind.arg or 'fn', nullable=kind.nullable)
     if t == 'val':
       if kind.tags and assume_shape:
-        st.assume(z3.Or(*[vv.recog(tag, term) for tag in kind.tags]))
+        st.axiom(z3.Or(*[vv.recog(tag, term) for tag in kind.tags]))
       if kind.tags:
         st.tags.setdefault(term.get_id(), tuple(kind.tags))
       return VVal(term)
@@ -115,14 +115,14 @@ class HeapMixin(object):
     if hint.tag == 'val':
       if hint.tags:
         if assume_shape:
-          st.assume(z3.Or(*[vv.recog(tag, term) for tag in hint.tags]))
+          st.axiom(z3.Or(*[vv.recog(tag, term) for tag in hint.tags]))
         st.tags.setdefault(term.get_id(), tuple(hint.tags))
       return VVal(term)
     t = hint.tag
 
     def need(cond):
       if assume_shape:
-        st.assume(cond)
+        st.axiom(cond)
       elif check:
         self.safety(st, cond, 'shape', 'value fits %r' % (hint,))
     if t == 'int':
@@ -163,7 +163,7 @@ class HeapMixin(object):
     st.next_oid += 1
     ref = VRef(cls, oid, exact=exact, elem=elem)
     if isinstance(cls, ClassInfo):
-      st.assume(st.classof(z3.IntVal(oid)) == cls.uid)
+      st.axiom(st.classof(z3.IntVal(oid)) == cls.uid)
     return ref
 
   def oid_of(self, ref):
